@@ -319,7 +319,8 @@ def x7(run: Run, prog: Program):
                 n += 1
                 lst = c.args[0].id
                 restored = any(isinstance(x, ast.Call) and
-                               ast.unparse(x.func) in ("np.argsort", "numpy.argsort")
+                               ast.unparse(x.func) in ("np.argsort", "numpy.argsort",
+                                                       "np.searchsorted", "np.lexsort")
                                and x.args and lst in ast.unparse(x.args[0])
                                for x in ast.walk(f.node))
                 presorted = any(isinstance(x, ast.Call) and
